@@ -76,3 +76,19 @@ def read_text(reader, sink, text, *args, **kw):
     with open(path, "w", newline="") as f:
         f.write(text)
     return reader(path, *args, **kw)
+
+
+def default_objects_dirty():
+    """Objects created with default arguments must be empty: returns a description of what is not, or None.
+    (catches mutable default arguments and other state shared between independently created objects)"""
+    from bec2format.bec2file import Bec2File
+    f = Bf3File()
+    if f.comments or f.components:
+        return "a new Bf3File() has comments %r and %d components" % (f.comments, len(f.components))
+    b = Bec2File(Bf3File(), session_key=bytes(16))
+    if b.auth_blocks or b.bf3file.comments or b.bf3file.components:
+        return "a new Bec2File(Bf3File()) has blocks %r / comments %r" % (list(b.auth_blocks), b.bf3file.comments)
+    c = Bf3Component({}, b"x")
+    if c.description or c.encrypt_by_session_key or c.actual_len != 1:
+        return "a new Bf3Component({}, b'x') has description %r" % (c.description,)
+    return None
